@@ -115,3 +115,64 @@ pub fn run_aliases(args: &[&str]) -> String {
     }
     lines.join(" ")
 }
+
+/// `canonfile <path>`: loads a file of any format through the public API, loads the signal of every variable and
+/// checks the canonical form of what every variable reports: bit-vector values have exactly the variable's declared
+/// width and the smallest sufficient kind, real variables report reals and string variables strings, and no two
+/// consecutive changes carry the same value.
+pub fn run_canonfile(args: &[&str]) -> String {
+    let mut wave = match simple::read(args[0]) {
+        Ok(w) => w,
+        Err(_) => return "ERR".to_string(),
+    };
+    let ids: Vec<SignalRef> = wave.hierarchy().iter_vars().map(|v| v.signal_ref()).collect();
+    wave.load_signals(&ids);
+    let h = wave.hierarchy();
+    let mut bad = vec![];
+    let mut checked = 0usize;
+    for var in h.iter_vars() {
+        let name = var.full_name(h);
+        let sig = match wave.get_signal(var.signal_ref()) {
+            Some(s) => s,
+            None => {
+                bad.push(format!("{}: not loaded", name));
+                continue;
+            }
+        };
+        checked += 1;
+        let mut last: Option<String> = None;
+        for (_, v) in sig.iter_changes() {
+            let shown = match v {
+                SignalValue::Binary(..) | SignalValue::FourValue(..) | SignalValue::NineValue(..) => {
+                    let s = v.to_bit_string().unwrap();
+                    if let Some(len) = var.length() {
+                        if s.len() as u32 != len {
+                            bad.push(format!("{}: value of {} bits for a variable of {} bits", name, s.len(), len));
+                        }
+                    }
+                    let min = if s.chars().all(|c| c == '0' || c == '1') { 2 } else if s.chars().all(|c| "01xz".contains(c)) { 4 } else { 9 };
+                    let k = match v { SignalValue::Binary(..) => 2, SignalValue::FourValue(..) => 4, _ => 9 };
+                    if k != min {
+                        bad.push(format!("{}: kind {} for {}", name, k, s));
+                    }
+                    format!("B{}", s)
+                }
+                SignalValue::String(s) => {
+                    if !var.is_string() { bad.push(format!("{}: string value", name)); }
+                    format!("S{}", s)
+                }
+                SignalValue::Real(r) => {
+                    if !var.is_real() { bad.push(format!("{}: real value", name)); }
+                    format!("R{:016x}", r.to_bits())
+                }
+                _ => "?".to_string(),
+            };
+            if last.as_deref() == Some(shown.as_str()) {
+                bad.push(format!("{}: repeated value {}", name, &shown[..shown.len().min(40)]));
+            }
+            last = Some(shown);
+        }
+        if bad.len() > 8 { break; }
+    }
+    if bad.is_empty() { format!("ok {} variables", checked) } else { format!("BAD {}", bad.join(";")) }
+}
